@@ -86,6 +86,9 @@ class StmtMixin:
             return assign_all(v, s)
 
         def assign_all(v, s):
+            if isinstance(v, EmptyList) and all(isinstance(t, ast.Name) for t in stmt.targets):
+                # a local list that will be filled by the code: elements default to object references
+                v = self.new_cell(s, self.empty_list(ANY), v.kind)
             for t in stmt.targets:
                 self.assign_target(t, v, s)
             return [(N_, s)]
